@@ -34,7 +34,17 @@ def bump_ret(e):
     e["attrs"]["ret"] = bump(e["attrs"]["ret"])
 
 
+def flip_ok(e):
+    e["ok"] = not e["ok"]
+
+
+def flip_digest(e):
+    e["digest_same"] = not e["digest_same"]
+
+
 RULES = {
+    "fault": [("fault", lambda e: e.get("k", 99) <= e.get("ncalls", 0) and not e.get("ok"), flip_digest, "fault.digest_same flipped")],
+    "auth": [("auth_edge", lambda e: not e.get("tick"), flip_ok, "auth_edge.ok flipped")],
     "pool": [("pm_swap", lambda e: e.get("ok"), bump_pm_balance, "post.bal.pm[denom] +- 1 after a swap"),
              ("pm_swap", lambda e: e.get("ok"), bump_ret, "logged return amount of a swap +- 1"),
              ("pm_withdraw", lambda e: e.get("ok"), bump_pm_balance, "post.bal.pm[denom] +- 1 after a withdrawal")],
